@@ -17,13 +17,13 @@ import (
 )
 
 type c08Case struct {
-	Tests   map[string][]Step `json:"tests"`   // program: top-level test -> steps (no skip steps)
-	Skips   []string          `json:"skips"`   // "TestA/sub@2:Skipf" : test name, step index before which snaps.Skip* is called, kind
-	Run     string            `json:"run"`     // -test.run
-	Upd     string            `json:"update_snaps"`
-	Sort    bool              `json:"sort"`
-	Stale   []string          `json:"stale_entries"` // "cfgkind|id": extra stale entries inserted into recorded files
-	NoExempt bool             `json:"no_exemptions,omitempty"` // probes: do not exempt the known findings
+	Tests    map[string][]Step `json:"tests"` // program: top-level test -> steps (no skip steps)
+	Skips    []string          `json:"skips"` // "TestA/sub@2:Skipf" : test name, step index before which snaps.Skip* is called, kind
+	Run      string            `json:"run"`   // -test.run
+	Upd      string            `json:"update_snaps"`
+	Sort     bool              `json:"sort"`
+	Stale    []string          `json:"stale_entries"`           // "cfgkind|id": extra stale entries inserted into recorded files
+	NoExempt bool              `json:"no_exemptions,omitempty"` // probes: do not exempt the known findings
 }
 
 var c08Pool = []struct{ file, test string }{
